@@ -628,6 +628,12 @@ func concPubSubPhase(c *explore.Ctx, prop string) {
 		obs := &concObs{}
 		names = append(names, sc.name)
 		schedScenario(c, "e3-"+sc.name, bound, func() [][3]string { return obs.problems }, func() string { return obs.outcome }, concPubSubBody(obs, sc, prop), map[string]any{"e3": sc.name})
+		if !c.Quick() && prop == "C01" && sc.apiPub >= 2 {
+			// thorough only: also vary which runnable thread goes next when the running one blocks
+			// (two goroutines waiting for the same lock), at one deviation
+			names = append(names, sc.name+"+switch")
+			schedScenario(c, "e3-"+sc.name+"+switch", 1, func() [][3]string { return obs.problems }, func() string { return obs.outcome }, concPubSubBody(obs, sc, prop), map[string]any{"e3": sc.name, "switch_choice": true})
+		}
 	}
 	c.Extra["e3_scenarios"] = names
 }
@@ -644,6 +650,10 @@ func concReplay(c *explore.Ctx, rc map[string]any, prop string) bool {
 			continue
 		}
 		obs := &concObs{}
+		if rc["switch_choice"] == true {
+			explore.SwitchChoice = true
+			defer func() { explore.SwitchChoice = false }()
+		}
 		r, div := explore.RunPrefix(intsOf(rc["choices"]), nil, verbose, concPubSubBody(obs, sc, prop))
 		for _, l := range r.Log {
 			fmt.Println(l)
